@@ -222,7 +222,13 @@ def canon(x):
     if h == 'elem':
         return ('elem', canon(x[1]), int(x[2]), int(x[3]))
     if h == 'pow':
-        return ('pow', canon(x[1]), int(x[2]))
+        # a positive integer power of a non-commutative factor IS the repeated product (sympy gathers equal
+        # neighbouring MatrixElements into a power, the model keeps the factors: same value)
+        k = int(x[2])
+        if k >= 1:
+            cb = canon(x[1])
+            return cb if k == 1 else ('mul', None, (cb,) * k)
+        return ('pow', canon(x[1]), k)
     if h == 'add':
         return ('add', tuple(sorted((canon(a) for a in x[1:]), key=repr)))
     if h == 'mul':
@@ -232,7 +238,11 @@ def canon(x):
             if is_comm(a):
                 p = p_mul(p, poly(a))
             else:
-                nc.append(canon(a))
+                ca = canon(a)
+                if isinstance(ca, tuple) and len(ca) == 3 and ca[0] == 'mul' and ca[1] is None:
+                    nc.extend(ca[2])            # a repeated product standing for a positive power: flattened
+                else:
+                    nc.append(ca)
         if p == P_ONE:
             return nc[0] if len(nc) == 1 else ('mul', None, tuple(nc))
         return ('mul', p_key(p), tuple(nc))
